@@ -372,6 +372,30 @@ func (m *mAgglayer) checkSubmission(mc *mCert) {
 	if f.Root() != c.NewLocalExitRoot && c.PrevLocalExitRoot == m.front.Root() {
 		m.violate("C03", "%s: appending its %d bridge exits to the tree with root %s gives %s, not its new local exit root %s", desc, len(c.BridgeExits), c.PrevLocalExitRoot, f.Root(), c.NewLocalExitRoot)
 	}
+	if c.PrevLocalExitRoot != m.front.Root() {
+		// the certificate names another previous root (C02 has reported that): C03 still speaks about "the exit tree whose
+		// root is the certificate's previous local exit root" - if that is a root the L2 exit tree really had (after k
+		// deposits), the same recomputation is made from there
+		var g ref.Frontier
+		known := g.Root() == c.PrevLocalExitRoot
+		for _, b := range m.w.l2blocks {
+			for _, br := range b.Bridges {
+				if known {
+					break
+				}
+				g.Add(refBridgeLeaf(br))
+				known = g.Root() == c.PrevLocalExitRoot
+			}
+		}
+		if known {
+			for _, e := range c.BridgeExits {
+				g.Add(wireExitHash(e))
+			}
+			if g.Root() != c.NewLocalExitRoot {
+				m.violate("C03", "%s: appending its %d bridge exits to the exit tree whose root is its previous local exit root %s gives %s, not its new local exit root %s", desc, len(c.BridgeExits), c.PrevLocalExitRoot, g.Root(), c.NewLocalExitRoot)
+			}
+		}
+	}
 	// ---- C09: claim proofs
 	m.checkClaimProofs(mc, desc)
 	// ---- C10: signature over the commitment of the final content
